@@ -11,6 +11,7 @@ mod engb;
 mod engc;
 mod enge;
 mod engf;
+mod engg;
 #[cfg(feature = "shuttle")]
 mod engd;
 mod common;
